@@ -34,6 +34,7 @@ type Exec struct {
 	fx   *FuncCtx
 	info *types.Info
 	nret int
+	sig  *types.Signature // overrides the enclosing function's signature (function literals)
 }
 
 func (x *Exec) ev(st *State) *Ev {
@@ -176,6 +177,9 @@ func (x *Exec) ret(s *ast.ReturnStmt, st *State) *Flow {
 	x.nret++
 	r := &RetState{st: st, pos: s.Pos(), ord: x.nret}
 	sig := x.fx.obj.Type().(*types.Signature)
+	if x.sig != nil {
+		sig = x.sig
+	}
 	e := x.ev(st)
 	switch {
 	case len(s.Results) == 0:
